@@ -9,7 +9,7 @@ from vlib import Infra, log
 
 
 def reset(e):
-    return e.get("e") == "SlInit"
+    return e.get("e") in ("SlInit", "WrInit")
 
 
 def cfg_text(procs, keys, maxops, maxnodes, top, fix=True, inflight=False,
@@ -173,6 +173,7 @@ def run(ctx, focus):
         behs, r = vlib.simulate_behaviours("Skiplist.tla", "Sim_SL.cfg", ctx.wd, 2000 if T else 300, 140, vlib.seed() + top)
         scripts = [to_script([re.sub(r"^a(?=[A-Z])", "", x) for x in b], top, rng.randrange(1 << 30), mm=(i % 2 == 1)) for i, b in enumerate(behs)]
         scripts = [s for s in scripts if s["procs"]]
+        vlib.require_ops(ctx, scripts, "Skiplist.tla simulated behaviours (top %d)" % top)
         if top == 1:
             ctx.add_sample({"kind": "TLC-simulated behaviour as gate schedule (M3)", "procs": scripts[0]["procs"], "sched": scripts[0]["sched"][:40]})
         tr, info = run_scripts(ctx, scripts, "m3sim%d" % top)
@@ -196,23 +197,31 @@ def run(ctx, focus):
     # ---- binding demonstration: flip one result in a recorded history
     if not ctx.violations:
         lines = open(first_tr).read().splitlines()
-        end = next((k for k in range(1, len(lines)) if '"SlInit"' in lines[k]), len(lines))
-        sc = lines[:end]
-        for i, ln_ in enumerate(sc):
-            if '"Ret"' in ln_:
-                e = json.loads(ln_)
-                e["ok"] = not e["ok"]
-                sc[i] = json.dumps(e)
-                break
-        cp = os.path.join(ctx.wd, "corrupt.ndjson")
-        open(cp, "w").write("\n".join(sc) + "\n")
+        starts = [k for k in range(len(lines)) if '"SlInit"' in lines[k]] + [len(lines)]
+        # A flipped result of an operation that overlaps another one on the same key can still be linearizable,
+        # so several single-field corruptions (in several scenarios) are tried: the binding is demonstrated when flips are rejected.
+        cands = []
+        for a, b in list(zip(starts, starts[1:]))[:10]:
+            cands += [(a, b, i) for i in range(a, b) if '"Ret"' in lines[i]][:3]
         saved = (ctx.events, ctx.traces, ctx.states, ctx.transitions, list(ctx.violations))
-        ok = setlin(ctx, cp, "binding self-test (one result flipped)", 0, record=False)
+        rejected = 0
+        log("[M2] binding self-test: %d lines, %d scenarios, %d candidate flips" % (len(lines), len(starts) - 1, len(cands)))
+        for (a, b, i) in cands:
+            sc = lines[a:b]
+            e = json.loads(sc[i - a])
+            e["ok"] = not e["ok"]
+            sc[i - a] = json.dumps(e)
+            cp = os.path.join(ctx.wd, "corrupt.ndjson")
+            open(cp, "w").write("\n".join(sc) + "\n")
+            if not setlin(ctx, cp, "binding self-test (result at line %d flipped)" % (i + 1), 0, record=False):
+                rejected += 1
+                if rejected >= 2:
+                    break
         ctx.events, ctx.traces, ctx.states, ctx.transitions = saved[:4]
         ctx.violations = saved[4]
-        if ok:
-            raise Infra("binding self-test failed: a history with a flipped result was accepted")
-        ctx.extra["binding_selftest"] = "history with one flipped result: no linearization found (rejected)"
+        if cands and rejected == 0:
+            raise Infra("binding self-test failed: every one of %d histories with one flipped result was accepted" % len(cands))
+        ctx.extra["binding_selftest"] = "%d histories with one flipped result: no linearization found (rejected)" % rejected
     ctx.assumptions += ["interleaving is controlled at the verif yield points (every getNext / dcasNext of the search, insert and delete paths); executions are sequentially consistent",
                         "the maximum level is raised to Top before the scenario starts (a warmed-up skiplist); node heights are given to Insert3",
                         "DeleteNode targets only nodes whose Insert has returned (the public API hands out the pointer on return); the in-flight variant is checked in the model only",
